@@ -153,7 +153,7 @@ PROPS = {
     'C13': dict(
         props_file='Props/C13.v',
         components=['c13'],
-        comp_names={13: 'checkLeaderLease on a real leader state', 1301: 'ValidateConfig (timing part)', 1302: 'minCheckInterval', 1005: 'leader isolated from its voter majority (real timers)', 1006: 'fault-free run (real timers)'},
+        comp_names={13: 'checkLeaderLease on a real leader state', 1301: 'ValidateConfig (timing part)', 1302: 'minCheckInterval', 1303: 'lease check interval at the minCheckInterval floor (contacts a few ms inside the lease)', 1005: 'leader isolated from its voter majority (real timers)', 1006: 'fault-free run (real timers)'},
         rule='checkLeaderLease on a real server put in Leader state with one followerReplication per peer whose lastContact is now-d, d on a grid of {0,.2,.4,.8,1.2,1.6,3,10} x lease (never within 20% of the boundary), '
              'for 7 configurations (1..5 servers, non-voters, staging, self non-voter): exhaustive up to 4 peers (5-server grid sampled in quick); compared: stepped down?, maxDiff and next interval in 20 ms buckets; '
              'ValidateConfig over 648 combinations of heartbeat/election/commit/lease; real clusters with 60 ms lease: leader cut off with fewer than a quorum (non-voters on its side), step-down delay measured against 2 x lease, '
